@@ -20,7 +20,7 @@ def _bound_patterns(n):
         yield list(pat)
 
 
-@contract(FT + "convert_bounds_for_curve_fit", ["C14"], [dict(pat=p) for n in (1, 2, 3, 4) for p in _bound_patterns(n)], name="fitting.convert_bounds")
+@contract(FT + "convert_bounds_for_curve_fit", ["C14", "C09"], [dict(pat=p) for n in (1, 2, 3, 4) for p in _bound_patterns(n)], name="fitting.convert_bounds")
 class ConvertBounds(Contract):
     """[(lower_k, upper_k)] -> [[lower_k or -inf], [upper_k or +inf]] position by position (all None-patterns of
     1..4 parameters enumerated)"""
@@ -103,7 +103,7 @@ def minimize_model(rec):
 FF_CASES = [dict(method=m, bounds=b) for m in ("lsq", "wlsq") for b in ("none", "given")] + [dict(method="mle", bounds="none")]
 
 
-@contract(FT + "fit_function", ["C14"], FF_CASES, name="fitting.fit_function")
+@contract(FT + "fit_function", ["C14", "C09"], FF_CASES, name="fitting.fit_function")
 class FitFunction(Contract):
     """curve_fit receives the function itself, x, y, the start values, the converted bounds iff bounds are declared
     and sigma = weights iff the method is weighted; its optimum is returned unchanged"""
@@ -162,7 +162,7 @@ class FitFunction(Contract):
 FC_CASES = [dict(method=m, cons=c, bounds=b) for m in ("lsq",) for c in ("dict", "list", "none") for b in ("none", "given")] + [dict(method="wlsq", cons="dict", bounds="none")]
 
 
-@contract(FT + "fit_constrained_function", ["C14"], FC_CASES, name="fitting.fit_constrained_function")
+@contract(FT + "fit_constrained_function", ["C14", "C09"], FC_CASES, name="fitting.fit_constrained_function")
 class FitConstrained(Contract):
     """SLSQP receives the squared-error objective of the function on (x, y), the start values, the declared bounds
     AND every declared constraint; a failed optimisation raises; the optimum is returned unchanged"""
